@@ -19,12 +19,23 @@ def cls_of(of, name):
 
 # ---------------------------------------------------------------- generation
 
+BIG_POOL = [255, 256, 257, 258, 300, 1000, 65537]
+
+
+def rand_index(rng, max_index):
+    """max_index < 0 selects the pool of large indices (each draw is a fresh int object:
+    CPython only shares small ints, so identity-vs-equality slips show there)"""
+    if max_index < 0:
+        return int(str(rng.choice(BIG_POOL)))
+    return rng.randint(0, max_index)
+
+
 def rand_term(rng, cls, max_len, max_index):
     n = rng.choice([0, 1, 1, 2, 2, 3, 3, 4, 5, 6][:max_len + 4]) if max_len >= 6 else rng.randint(0, max_len)
     n = min(n, max_len)
     if cls == 'majorana':
-        return tuple(rng.randint(0, max_index) for _ in range(n))
-    return tuple((rng.randint(0, max_index), rng.choice(ACTIONS[cls])) for _ in range(n))
+        return tuple(rand_index(rng, max_index) for _ in range(n))
+    return tuple((rand_index(rng, max_index), rng.choice(ACTIONS[cls])) for _ in range(n))
 
 
 def rand_scalar(rng, for_div=False):
@@ -516,11 +527,14 @@ def run(ctx):
         rng = rng_for(ctx.seed, 'c01-' + cls)
         progs = []
         for k in range(nprog):
-            small = rng.random() < 0.75
+            u = rng.random()
+            small = u < 0.70
             max_index = 3 if small else 12
             if cls in ('boson', 'quad') and small:
                 max_index = 1
             max_len = 3 if small else 6
+            if u > 0.92:
+                max_index, max_len = -1, 4       # large indices (correspondence + canonical form only)
             progs.append(gen_program(rng, cls, 4, rng.randint(3, 12), max_len, max_index))
         check_programs(ctx, rnd, cls, progs, 4)
         rnd.count('class:' + cls, len(progs))
